@@ -21,6 +21,7 @@ func init() {
 	reg("C02", "C02.R4", "E2", "each ActionResult case finalizes exactly once (Discard/Collapse/Hold) or never (Pass/Break)", 5, ruleOneFinalizePerResult)
 	reg("C02", "C02.R5", "E2", "hold<->propagate typestate of every action returning ActionHold", 1, ruleHoldPropagate)
 	reg("C02", "C02.R6", "E1", "single commit sequencer (same rule as C01.R8)", 1, ruleSingleSequencer)
+	reg("C02", "C02.R8", "E2", "Propagate clears the holding action's busy mark before the flushed event re-enters the action chain", 1, rulePropagateResetsBusy)
 	reg("C02", "C02.R7", "E2+E3", "stream.put appends at the tail under the lock and numbers events by +1", 1, ruleStreamPutFIFO)
 }
 
@@ -520,6 +521,43 @@ func ruleStreamPutFIFO(c *Ctx, r *Rule) {
 	}
 	r.Ob(okShape && lastStores == 2 && firstStores == 1 && nextStores == 1, name+"|tail-append", put.Pos(),
 		fmt.Sprintf("enqueue appends at the tail: empty → first=last=event; else last.next=event, last=event (stores: last=%d first=%d next=%d)", lastStores, firstStores, nextStores))
+	// nobody overwrites a non-empty queue: every store to first that is not the dequeue is under first == nil,
+	// and every store to last is under first == nil or follows last.next = <same value>
+	firstIsNil := func(in ssa.Instruction) bool {
+		for _, l := range c.unitGuards(in) {
+			if op, x, y, ok := cmpLit(l); ok && op == token.EQL && ((isLoadOfField(x, pipelinePkg, "stream", "first") && isNilConst(y)) || (isLoadOfField(y, pipelinePkg, "stream", "first") && isNilConst(x))) {
+				return true
+			}
+		}
+		return false
+	}
+	getFn := c.Method("pipeline", "stream", "get")
+	nf := map[string]int{}
+	for _, a := range c.fieldAccesses(pipelinePkg, "stream", "first") {
+		if !a.write || isFreshAlloc(refOf(a.base).root) || a.fn == getFn || isNilConst(a.val) {
+			continue
+		}
+		nm := c.fnName(a.fn)
+		nf[nm]++
+		r.Ob(firstIsNil(a.in), fmt.Sprintf("%s|first-store#%d|only-when-empty", nm, nf[nm]), a.in.Pos(), "stream.first is (re)assigned only when the queue is empty (otherwise queued events are unlinked and never finalized)")
+	}
+	nl := map[string]int{}
+	for _, a := range c.fieldAccesses(pipelinePkg, "stream", "last") {
+		if !a.write || isFreshAlloc(refOf(a.base).root) || a.fn == getFn || isNilConst(a.val) {
+			continue
+		}
+		nm := c.fnName(a.fn)
+		nl[nm]++
+		ok := firstIsNil(a.in)
+		if !ok {
+			for _, b := range c.fieldAccesses(pipelinePkg, "Event", "next") {
+				if b.write && b.fn == a.fn && b.val == a.val && instrDominates(b.in, a.in) && isLoadOfField(b.base, pipelinePkg, "stream", "last") {
+					ok = true
+				}
+			}
+		}
+		r.Ob(ok, fmt.Sprintf("%s|last-store#%d|append-or-empty", nm, nl[nm]), a.in.Pos(), "stream.last moves only by linking the new tail behind the old one, or when the queue is empty")
+	}
 	// dequeue takes the head: awaySeq = event.SeqID where event = first
 	get := c.Method("pipeline", "stream", "get")
 	if get != nil {
@@ -543,4 +581,87 @@ func ruleStreamPutFIFO(c *Ctx, r *Rule) {
 		}
 		r.Ob(okAdv, c.fnName(get)+"|advance-head", get.Pos(), "dequeue advances first to first.next")
 	}
+}
+
+func rulePropagateResetsBusy(c *Ctx, r *Rule) {
+	ro := c.roles()
+	if ro.ActionCtl == nil || ro.actPropagate == nil || ro.actDo == nil {
+		r.Unresolved("ActionPluginController.Propagate")
+		return
+	}
+	// the reset function: decrements processor.busyActionsTotal
+	var reset *ssa.Function
+	for _, a := range c.fieldAccesses(pipelinePkg, "processor", "busyActionsTotal") {
+		if a.write {
+			if bo, ok := a.val.(*ssa.BinOp); ok && bo.Op == token.SUB {
+				reset = a.fn
+			}
+		}
+	}
+	if reset == nil {
+		r.Unresolved("function decrementing processor.busyActionsTotal")
+		return
+	}
+	for _, t := range c.Implementers(ro.ActionCtl) {
+		fn := c.MethodOf(t, "Propagate")
+		if fn == nil || fn.Blocks == nil || c.pkgOf(fn) != "pipeline" {
+			continue
+		}
+		r.Inst(1)
+		name := c.fnName(fn)
+		var rc ssa.CallInstruction
+		for _, ci := range callsIn(fn) {
+			if calleeFunc(ci) == reset {
+				rc = ci
+			}
+		}
+		r.Ob(rc != nil, name+"|resets-busy", fn.Pos(), "Propagate clears the busy mark of the action that held the event (otherwise, if a later action drops the flushed event, the processor pulls the NEXT stream event while the triggering event is still suspended, and commits overtake)")
+		if rc == nil {
+			continue
+		}
+		// before re-entering the chain: the reset dominates every call that can reach the action dispatch
+		for _, ci := range callsIn(fn) {
+			f := calleeFunc(ci)
+			if f == nil || f == reset || !c.inModule(f) {
+				continue
+			}
+			if c.reachesInvoke(f, ro.actDo, 4) {
+				r.Ob(instrDominates(rc, ci), name+"|reset-before-reentry|"+f.Name(), ci.Pos(), "the busy mark is cleared before the flushed event re-enters the action chain")
+			}
+		}
+		// the index cleared is the event's current action (the holder): derived from event.action
+		arg := rc.Common().Args[len(rc.Common().Args)-1]
+		okIdx := false
+		var walk func(v ssa.Value, d int)
+		walk = func(v ssa.Value, d int) {
+			if d > 4 {
+				return
+			}
+			if isLoadOfField(v, pipelinePkg, "Event", "action") {
+				okIdx = true
+			}
+			if bo, ok := v.(*ssa.BinOp); ok {
+				walk(bo.X, d+1)
+				walk(bo.Y, d+1)
+			}
+		}
+		walk(arg, 0)
+		r.Ob(okIdx, name+"|reset-index", rc.Pos(), "the cleared index is computed from the held event's action index: "+c.path(arg))
+	}
+}
+
+// reachesInvoke: some static call chain from f (bounded) contains an invoke of interface method m.
+func (c *Ctx) reachesInvoke(f *ssa.Function, m *types.Func, depth int) bool {
+	if f == nil || f.Blocks == nil || depth < 0 {
+		return false
+	}
+	for _, ci := range callsIn(f) {
+		if invokesMethod(ci, m) {
+			return true
+		}
+		if g := calleeFunc(ci); g != nil && g != f && c.inModule(g) && c.reachesInvoke(g, m, depth-1) {
+			return true
+		}
+	}
+	return false
 }
